@@ -394,6 +394,7 @@ func C01(tier string) int {
 	}
 	close(jobCh)
 	wg.Wait()
+	boundaryPass(rep, "C01", true, false, false)
 	rep.Set("evaluations", rep.Get("evaluations"))
 	rep.Set("distinct_nontrivial", int(rep.Get("compared_pairs")))
 	return rep.Finish()
